@@ -53,7 +53,7 @@ TABLE = {
            ("RejectProofs.v", ["find_entity_first", "ok_refs_defined_first"], "Local Notation token := Tokenizer.token.")]),
  "C08": dict(
    intro="C08 -- ill-formed documents are rejected.  (1) the three character classes are the Fifth Edition\n   productions for every scalar value (tables regenerated from the source on every run);\n   (2) local rejection theorems, 'accepted implies constraint': comment bodies, ']]>' in text, misplaced\n   declaration, '<' in attribute values, every consumed character is a Char, end tags match the open\n   element and cannot close an element opened outside the current entity, reserved prefixes and URIs,\n   entity references are declared (first declaration wins), and the document-level token shape: only\n   comments / PIs (and entity declarations) before the root, at most one root element, only\n   comments / PIs after it.  (3) Soundness against the grammar on the byte fragment that Spec/Cst.v covers\n   (in_fragment, Proofs/CstSound.v: printable ASCII / TAB / LF, no '&', no ':', no '<!D' '<![' '<?xml' 'xmlns';\n   attrs_raw: no attribute value was normalised): every ACCEPTED input is the rendering of a well-formed abstract\n   document (parse_sound_fragment) -- the parser accepts nothing outside the grammar there -- and its tree is that\n   document's meaning (parse_sound_and_complete).  (4) Truncation: for EVERY accepted document (DOCTYPE and entity expansion included) and\n   every cut (on a character boundary) before the end of its root element, the prefix is rejected\n   (truncation_rejected; root_element_end d and firstn_N are defined in Proofs/TruncMain.v).  (5) Soundness over\n   Unicode (in_fragment_u, Proofs/CstSoundU.v: valid UTF-8, no CR, '&', ':', '<!D', '<![', '<?xml', 'xmlns', no leading\n   BOM): every accepted input is the rendering of a well-formed document of Spec/CstU.v (parse_sound_fragment_u).\n   (6) Soundness with references and CDATA (in_fragment_t, Proofs/CstSoundT.v: printable ASCII / TAB / LF, '&' and\n   '<![' allowed, numeric references denote scalar values -- the documented U+FFFD leniency excluded): every accepted input\n   is the rendering of a well-formed document of Spec/CstText.v, with NO condition on the result (parse_sound_fragment_t).\n   (7) Namespace constraints at document level (Spec/CstNs.v): a syntactically well-formed document that violates one of\n   N1-N7 (undeclared prefix, duplicate declaration, duplicate attribute by expanded name, misuse of xml / xmlns prefixes\n   and URIs) is rejected with one of the namespace error variants (ns_violation_rejected).  (8) Soundness WITH NAMESPACES\n   (in_fragment_n, Proofs/CstSoundN.v: valid UTF-8, qualified names and xmlns declarations allowed, references and CDATA\n   allowed; no CR, DOCTYPE, XML declaration, BOM; numeric references scalar; no leading-colon names and no colon in PI\n   targets -- two leniencies, each with its Example): every accepted input is the rendering of a well-formed document of\n   Spec/CstFull.v stage S2, hence satisfies N1-N7 on normalised URIs; the resource bounds of the completeness theorem\n   follow from acceptance (parse_sound_fragment_n_res), so the parsed tree IS the document's meaning\n   (parse_sound_and_complete_n).  (9) Soundness WITH THE PROLOG AND ENTITIES (in_fragment_p, Proofs/CstSoundP.v: BOM, XML\n   declaration, DOCTYPE with every kind of declaration, character-data general entities declared AND used; conditions P1-P8\n   on the bytes, each leniency with its Example): every accepted input is the rendering of a well-formed document of\n   Spec/CstFullS5.v (parse_sound_fragment_p) -- this covers misplaced / repeated XML declarations, undefined references,\n   recursion, '<' reaching an attribute value through an entity, and the DTD syntax.",
-   imports=["From RX.Spec Require Chars.", "From RX.Spec Require Cst.", "From RX.Proofs Require Import CharTablesProofs RejectProofs WfParseTok WfParseChars WfParse CstSound CstSoundDoc CstSoundCor TruncMain TruncDtdMain CstSoundU CstSoundUDoc CstSoundUCor CstSoundT CstSoundTDoc CstSoundTCor NsRejDefs NsRejBuild NsRejMain CstNsView CstFullMain CstSoundN CstSoundNDoc CstSoundNCor.", "From RX.Spec Require CstU CstText CstNs CstFull CstFullS5.", "From RX.Proofs Require CstSoundP CstSoundPRDoc CstSoundPRCor.", "From RX.Spec Require CstFullS4 CstFullS6.", "From RX.Proofs Require KnownFindingsMore KnownFindingsD21 CstSound6P CstSound6 CstSound6U CstSound6uCor CstFullS6Main CstFullRejSem CstFullRejTrace CstFullRejDoc CstFullRejMain CstFullNsRejMain."],
+   imports=["From RX.Spec Require Chars.", "From RX.Spec Require Cst.", "From RX.Proofs Require Import CharTablesProofs RejectProofs WfParseTok WfParseChars WfParse CstSound CstSoundDoc CstSoundCor TruncMain TruncDtdMain CstSoundU CstSoundUDoc CstSoundUCor CstSoundT CstSoundTDoc CstSoundTCor NsRejDefs NsRejBuild NsRejMain CstNsView CstFullMain CstSoundN CstSoundNDoc CstSoundNCor.", "From RX.Spec Require CstU CstText CstNs CstFull CstFullS5.", "From RX.Proofs Require CstSoundP CstSoundPRDoc CstSoundPRCor.", "From RX.Spec Require CstFullS4 CstFullS6.", "From RX.Proofs Require KnownFindingsMore KnownFindingsD21 CstSound6P CstSound6 CstSound6U CstSound6uCor CstSound6a CstSound6aFinal CstFullS6Main CstFullRejSem CstFullRejTrace CstFullRejDoc CstFullRejMain CstFullNsRejMain."],
    groups=[("CharTablesProofs.v", ["char_tables_conform", "byte_tables_conform", "byte_space_conform", "byte_char_agree"]),
            ("RejectProofs.v", ["ok_comment_body", "ok_text_no_cdata_end", "ok_pi_not_declaration", "ok_no_lt_in_attr", "skip_chars_only_chars",
                                "skip_chars_only_chars_text", "consume_chars_only_chars", "ok_tags_balanced", "ok_reserved_names",
@@ -70,6 +70,7 @@ TABLE = {
            ("CstSoundPRCor.v", ["parse_sound_and_complete_p"], "Import RX.Spec.CstFull. Import RX.Spec.CstFullS5. Import RX.Proofs.CstNsView. Import RX.Proofs.CstSoundP. Import RX.Proofs.CstSoundPRCor."),
            ("CstSound6P.v", ["parse_sound_fragment_6_on_p", "parse_sound_and_complete_6_on_p"], "Import RX.Spec.CstFull. Import RX.Spec.CstFullS5. Import RX.Spec.CstFullS6. Import RX.Proofs.CstNsView. Import RX.Proofs.CstSoundP. Import RX.Proofs.CstSound6P."),
            ("CstSound6uCor.v", ["parse_sound_fragment_6u", "parse_sound_and_complete_6u"], "Import RX.Spec.CstFull. Import RX.Spec.CstFullS5. Import RX.Spec.CstFullS6. Import RX.Proofs.CstNsView. Import RX.Proofs.CstSoundP. Import RX.Proofs.CstSound6. Import RX.Proofs.CstSound6U. Import RX.Proofs.CstSound6uCor."),
+           ("CstSound6aFinal.v", ["parse_sound_fragment_6a1"], "Import RX.Spec.CstFull. Import RX.Spec.CstFullS5. Import RX.Spec.CstFullS6. Import RX.Proofs.CstSoundP. Import RX.Proofs.CstSound6. Import RX.Proofs.CstSound6U. Import RX.Proofs.CstSound6a. Import RX.Proofs.CstSound6aFinal."),
            ("KnownFindingsMore.v", ["d27_refuted", "d28_refuted", "d29_refuted"], "Import RX.Proofs.CstNsView. Import RX.Proofs.KnownFindingsMore.", "CHECK"),
            ("KnownFindingsD21.v", ["d21_refuted", "d21_wf_for_spec", "d21_outside_class", "d21_outside_class_variant"], "Import RX.Spec.CstNs. Import RX.Proofs.NsRejDefs. Import RX.Proofs.NsRejBuild. Import RX.Proofs.NsRejMain. Import RX.Proofs.KnownFindingsD21."),
            ("NsRejMain.v", ["ns_violation_rejected"], "Import CstNs."),
@@ -171,7 +172,7 @@ TABLE = {
                               "parse_close_element_post"], "Local Notation token := Tokenizer.token.", "forall (text : bytes),")]),
  "C14": dict(
    intro="C14 -- text positions and error reports: text_pos_at is total on valid UTF-8, clamps, counts\n   rows by LF and columns in characters, stays in bounds and moves with inserted line breaks / spaces;\n   every Err returned by parse carries the position of an offset inside the input (or is one of the\n   seven position-less variants, which report 1:1), hence row / column are within the input.  Shift over a whole\n   parse: whitespace put in front of a document (no BOM / declaration) leaves the outcome unchanged -- an Ok result is\n   the same document with shifted offsets, an Err has the same variant and payload and is reported at the same place of\n   the document (offset + k), i.e. k spaces move the column of a row-1 error by k, k line breaks move the row by k.\n   The same for whitespace inserted at any insertion point of the prolog before a DOCTYPE (after the BOM / XML\n   declaration, after each comment or PI of the first Misc run; insertion_point is defined operationally and is\n   decidable by insertion_point_b): parse_err_shift_mid_partial, parse_ok_shift_mid_partial and the spaces / lines\n   corollaries (an error on the insertion point's row moves by k columns; k line breaks move the row by k).  And for\n   insertion points AFTER a DOCTYPE (between the DOCTYPE and the root, after later comments / PIs) when the DOCTYPE\n   records no general entity (parameter / external entities, ELEMENT / ATTLIST / NOTATION, comments and PIs inside the\n   subset are allowed): parse_err_shift_dtd, parse_ok_shift_dtd.",
-   imports=["From RX.Proofs Require Import PositionProofs ErrPosStream ErrPosTokenizer ErrPosParse ErrPayload RangeShiftBuilder ErrShiftBase ErrShiftFinal ErrShiftMidCore ErrShiftMidFinal ErrShiftDtdFinal ErrShiftEntFinal ErrShiftSubCont ErrShiftSubFinal ErrShiftProlog.", "From RX Require GeneratedDisplay.", "From RX.Model Require ErrDisplay.", "From RX.Proofs Require ErrDisplayProofs."],
+   imports=["From RX.Proofs Require Import PositionProofs ErrPosStream ErrPosTokenizer ErrPosParse ErrPayload RangeShiftBuilder ErrShiftBase ErrShiftFinal ErrShiftMidCore ErrShiftMidFinal ErrShiftDtdFinal ErrShiftEntFinal ErrShiftSubCont ErrShiftSubFinal ErrShiftProlog.", "From RX Require GeneratedDisplay.", "From RX.Model Require ErrDisplay.", "From RX.Proofs Require ErrDisplayProofs.", "From RX Require GeneratedErrors.", "From RX.Proofs Require ErrorEnumTie."],
    groups=[("PositionProofs.v", ["text_pos_total_valid", "text_pos_clamped", "text_pos_on_boundary", "text_pos_bounds", "text_pos_shift_lines_valid",
                                  "text_pos_shift_spaces_valid", "text_pos_shift_lines_gen", "text_pos_shift_spaces_gen"]),
            ("ErrShiftFinal.v", ["parse_err_shift", "parse_ok_shift", "parse_err_shift_spaces", "parse_err_shift_lines"]),
@@ -183,7 +184,8 @@ TABLE = {
            ("ErrPosTokenizer.v", ["tokenizer_errors_positioned"], "Local Notation token := Tokenizer.token."),
            ("ErrPosParse.v", ["token_errors_positioned", "parse_errors_positioned", "parse_error_in_bounds"]),
            ("ErrPayload.v", ["parse_error_payload_from_source"]),
-           ("ErrDisplayProofs.v", ["display_table_complete", "display_pos", "display_positionless", "read_show_pos", "display_payload"], "Import RX.GeneratedDisplay. Import RX.Model.ErrDisplay. Import RX.Proofs.ErrShiftBase. Import RX.Proofs.ErrDisplayProofs. Local Open Scope list_scope.")]),
+           ("ErrDisplayProofs.v", ["display_table_complete", "display_pos", "display_positionless", "read_show_pos", "display_payload"], "Import RX.GeneratedDisplay. Import RX.Model.ErrDisplay. Import RX.Proofs.ErrShiftBase. Import RX.Proofs.ErrDisplayProofs. Local Open Scope list_scope."),
+           ("ErrorEnumTie.v", ["error_enum_tie", "error_enum_complete", "error_pos_tie", "pos_field_last"], "Import RX.GeneratedErrors. Import RX.Model.ErrDisplay. Import RX.Proofs.ErrorEnumTie. Local Open Scope list_scope.")]),
  "C15": dict(
    intro="C15 -- nodes_limit is a hard, monotone cap on tree size: a successful parse has at most L nodes;\n   if the parse with a larger limit succeeds with N nodes then every L >= N gives the identical document\n   and every L < N gives Err NodesLimitReached; if it fails, every smaller limit fails too.",
    imports=["From RX.Proofs Require Import OptionsParam OptionsBuild OptionsMain OptionsDtd."],
